@@ -49,18 +49,26 @@ Proof.
   - destruct (is_digit d); [|reflexivity]. rewrite IH; auto. cbn [length] in Hl. lia.
 Qed.
 
-Lemma take_hours_app h rest c : (length h = 2 \/ length h = 3)%nat -> forallb is_digit h = true ->
+Lemma take_all_digits_app h : forall rest c, forallb is_digit h = true -> is_digit c = false ->
+  take_all_digits (h ++ c :: rest) = (h, c :: rest).
+Proof.
+  induction h as [|d h IH]; intros rest c Hd Hc; cbn [app take_all_digits].
+  - rewrite Hc. reflexivity.
+  - cbn [forallb] in Hd. apply andb_true_iff in Hd as [Hd1 Hd2]. rewrite Hd1, IH by auto. reflexivity.
+Qed.
+
+(* [0-9]{2,} : every width from two digits on *)
+Lemma take_hours_app h rest c : (2 <= length h)%nat -> forallb is_digit h = true ->
   is_digit c = false -> take_hours (h ++ c :: rest) = Some (h, c :: rest).
 Proof.
-  intros [Hl|Hl] Hd Hc; unfold take_hours.
-  - rewrite take_digits_stop by (auto; lia). apply take_digits_app; auto.
-  - rewrite take_digits_app; auto.
+  intros Hl Hd Hc. unfold take_hours. rewrite take_all_digits_app by auto.
+  destruct h as [|a [|b h]]; cbn [length] in Hl; try lia. reflexivity.
 Qed.
 
 Definition clock_text (h m s ms : text) : text := h ++ [58] ++ m ++ [58] ++ s ++ [44] ++ ms.
 
 Record clock_digits (h m s ms : text) : Prop := {
-  cd_h : (length h = 2 \/ length h = 3)%nat; cd_hd : forallb is_digit h = true;
+  cd_h : (2 <= length h)%nat; cd_hd : forallb is_digit h = true;
   cd_m : length m = 2%nat; cd_md : forallb is_digit m = true;
   cd_s : length s = 2%nat; cd_sd : forallb is_digit s = true;
   cd_ms : length ms = 3%nat; cd_msd : forallb is_digit ms = true }.
@@ -99,7 +107,7 @@ Definition timing_text (bh bm bs bms ws1 ws2 eh em es ems tail : text) : text :=
 Lemma hd_digit h m s ms rest : clock_digits h m s ms ->
   exists c r, clock_text h m s ms ++ rest = c :: r /\ is_digit c = true.
 Proof.
-  intros [Hh Hhd _ _ _ _ _ _]. destruct h as [|c h]; [destruct Hh; discriminate|].
+  intros [Hh Hhd _ _ _ _ _ _]. destruct h as [|c h]; [cbn [length] in Hh; lia|].
   exists c. eexists. split; [reflexivity|]. cbn [forallb] in Hhd. apply andb_true_iff in Hhd. tauto.
 Qed.
 
@@ -135,8 +143,8 @@ Lemma seconds_of_eq h m s ms :
   Qeq (seconds_of h m s ms) (printed_seconds h m s ms).
 Proof. rewrite seconds_of_value. apply Qred_correct. Qed.
 
-(* C10_exact_time: for every timing line made of digit strings of the pattern's widths (two or three
-   hour digits), whatever the digits, the white space around the arrow and the rest of the line, the
+(* C10_exact_time: for every timing line made of digit strings of the pattern's widths (two or more
+   hour digits - any number of them), whatever the digits, the white space around the arrow and the rest of the line, the
    reader's begin and end are h*3600 + m*60 + s + ms/1000 of the printed digits - as rationals in lowest
    terms (structural equality with Qred of the specification's value), hence equal as rationals. *)
 Theorem exact_time bh bm bs bms ws1 ws2 eh em es ems tail :
@@ -167,44 +175,81 @@ Proof.
   repeat split. unfold dig. change (Z.of_nat 2) with 2. change (Z.of_nat 1) with 1. change (Z.of_nat 0) with 0. lia.
 Qed.
 
-Definition hours_text (k : clock) : text := if k_wide k then pad3 (k_h k) else pad2 (k_h k).
+Definition hours_text (k : clock) : text := padn (k_hw k) (k_h k).
 
-Lemma wf_clock_bounds k : wf_clock k = true ->
-  0 <= k_h k /\ (if k_wide k then k_h k <= 999 else k_h k <= 99) /\ 0 <= k_m k <= 99 /\ 0 <= k_s k <= 99 /\ 0 <= k_ms k <= 999.
-Proof. unfold wf_clock. destruct (k_wide k); lia. Qed.
+Lemma dec_value_snoc l d : dec_value (l ++ [d]) = dec_value l * 10 + (d - 48).
+Proof.
+  induction l as [|x l IH]; cbn [app dec_value length].
+  - change (Z.of_nat 0) with 0. lia.
+  - rewrite IH. rewrite app_length. cbn [length]. rewrite Nat.add_1_r, Nat2Z.inj_succ, Z.pow_succ_r by lia. ring.
+Qed.
+
+(* n written with w digits: w digits, and their positional value is n, for every width and every n below 10^w *)
+Lemma padn_digits w : forall n, 0 <= n < 10 ^ Z.of_nat w ->
+  forallb is_digit (padn w n) = true /\ length (padn w n) = w /\ dec_value (padn w n) = n.
+Proof.
+  induction w as [|w IH]; intros n H.
+  - change (Z.of_nat 0) with 0 in H. rewrite Z.pow_0_r in H. cbn [padn forallb length dec_value]. repeat split. lia.
+  - rewrite Nat2Z.inj_succ, Z.pow_succ_r in H by lia. cbn [padn].
+    destruct (IH (n / 10)) as (A & B & C); [lia|].
+    rewrite forallb_app, A, app_length, B, dec_value_snoc, C. cbn [forallb length].
+    rewrite is_digit_dig by lia. repeat split; [lia|]. unfold dig. lia.
+Qed.
+
+Lemma clock_shape_bounds k : clock_shape k = true ->
+  (2 <= k_hw k)%nat /\ 0 <= k_h k < 10 ^ Z.of_nat (k_hw k) /\ 0 <= k_m k <= 99 /\ 0 <= k_s k <= 99 /\ 0 <= k_ms k <= 999.
+Proof.
+  unfold clock_shape. intro H. repeat (apply andb_true_iff in H as [H ?]).
+  apply Nat.leb_le in H. lia.
+Qed.
+Lemma wf_clock_shape k : wf_clock k = true -> clock_shape k = true /\ Z.of_nat (k_hw k) <= max_hour_digits.
+Proof. unfold wf_clock. intro H. apply andb_true_iff in H as [A B]. split; [exact A|lia]. Qed.
 
 Lemma print_clock_text k : print_clock k = clock_text (hours_text k) (pad2 (k_m k)) (pad2 (k_s k)) (pad3 (k_ms k)).
 Proof. reflexivity. Qed.
 
-Lemma hours_digits k : wf_clock k = true ->
-  forallb is_digit (hours_text k) = true /\ (length (hours_text k) = 2 \/ length (hours_text k) = 3)%nat /\ dec_value (hours_text k) = k_h k.
-Proof.
-  intro H. apply wf_clock_bounds in H. unfold hours_text. destruct (k_wide k).
-  - destruct (pad3_digits (k_h k)) as (a & b & c); [lia|]. auto.
-  - destruct (pad2_digits (k_h k)) as (a & b & c); [lia|]. auto.
-Qed.
+Lemma hours_digits k : clock_shape k = true ->
+  forallb is_digit (hours_text k) = true /\ length (hours_text k) = k_hw k /\ dec_value (hours_text k) = k_h k.
+Proof. intro H. apply clock_shape_bounds in H. unfold hours_text. apply padn_digits. lia. Qed.
 
-Lemma clock_digits_print k : wf_clock k = true ->
+Lemma clock_digits_shape k : clock_shape k = true ->
   clock_digits (hours_text k) (pad2 (k_m k)) (pad2 (k_s k)) (pad3 (k_ms k)).
 Proof.
-  intro H. pose proof (hours_digits k H) as (a & b & _). apply wf_clock_bounds in H.
+  intro H. pose proof (hours_digits k H) as (a & b & _). apply clock_shape_bounds in H.
   destruct (pad2_digits (k_m k)) as (a1 & b1 & _); [lia|].
   destruct (pad2_digits (k_s k)) as (a2 & b2 & _); [lia|].
   destruct (pad3_digits (k_ms k)) as (a3 & b3 & _); [lia|].
-  constructor; auto.
+  constructor; auto. lia.
+Qed.
+Lemma clock_digits_print k : wf_clock k = true ->
+  clock_digits (hours_text k) (pad2 (k_m k)) (pad2 (k_s k)) (pad3 (k_ms k)).
+Proof. intro H. apply clock_digits_shape. apply wf_clock_shape in H. tauto. Qed.
+
+(* the hour field of a clock of the grammar is one that int() converts: the generated limit of the interpreter is not
+   below the grammar's (fails closed when the interpreter is configured with a lower limit) *)
+Lemma max_hour_digits_converts : max_hour_digits <= int_max_str_digits.
+Proof. vm_compute. discriminate. Qed.
+Lemma hours_convert k : wf_clock k = true -> int_converts (hours_text k) = true.
+Proof.
+  intro H. apply wf_clock_shape in H as [S B]. pose proof (hours_digits k S) as (_ & L & _).
+  unfold int_converts. rewrite L. pose proof max_hour_digits_converts. lia.
 Qed.
 
-Lemma clock_value k : wf_clock k = true ->
+Lemma clock_value_shape k : clock_shape k = true ->
   seconds_of (hours_text k) (pad2 (k_m k)) (pad2 (k_s k)) (pad3 (k_ms k)) = clock_seconds k.
 Proof.
   intro H. rewrite seconds_of_value. unfold printed_seconds, clock_seconds.
-  pose proof (hours_digits k H) as (_ & _ & vh). apply wf_clock_bounds in H.
+  pose proof (hours_digits k H) as (_ & _ & vh). apply clock_shape_bounds in H.
   destruct (pad2_digits (k_m k)) as (_ & _ & vm); [lia|].
   destruct (pad2_digits (k_s k)) as (_ & _ & vs); [lia|].
   destruct (pad3_digits (k_ms k)) as (_ & _ & vms); [lia|].
   rewrite vh, vm, vs, vms. apply Qred_complete.
   unfold Qeq, Qplus, inject_Z. cbn [Qnum Qden]. lia.
 Qed.
+
+Lemma clock_value k : wf_clock k = true ->
+  seconds_of (hours_text k) (pad2 (k_m k)) (pad2 (k_s k)) (pad3 (k_ms k)) = clock_seconds k.
+Proof. intro H. apply clock_value_shape. apply wf_clock_shape in H. tauto. Qed.
 
 (* ---- "conversion to frame-based outputs lands on the intended frame": the time read is the exact rational, so a time
    that is a whole number of frames at an integer or rational frame rate fn/fd multiplies out to exactly that number *)
@@ -215,9 +260,10 @@ Proof.
   intro H. unfold clock_seconds. fold (total_ms k). rewrite Qred_correct.
   unfold Qeq, Qmult, inject_Z. cbn [Qnum Qden]. rewrite Pos2Z.inj_mul. lia.
 Qed.
-(* the whole path for one timing line of the grammar: the digits printed for two clocks are read back as the clocks'
-   values, for every clock of the grammar (hours 00-99 or 000-999, minutes and seconds 00-99, milliseconds 000-999) *)
-Theorem exact_time_grammar k1 k2 ws1 ws2 tail : wf_clock k1 = true -> wf_clock k2 = true ->
+(* the whole path for one timing line: the digits printed for two clocks are read back as the clocks' values, for every
+   clock that can be written - an hour field of ANY width from two digits on (no upper bound) holding any hour below
+   10^width, minutes and seconds 00-99, milliseconds 000-999 *)
+Theorem exact_time_grammar k1 k2 ws1 ws2 tail : clock_shape k1 = true -> clock_shape k2 = true ->
   ws1 <> [] -> forallb is_space ws1 = true -> ws2 <> [] -> forallb is_space ws2 = true ->
   exists g, search_tc (print_clock k1 ++ ws1 ++ [45;45;62] ++ ws2 ++ print_clock k2 ++ tail) = Some g /\
     seconds_of (g_bh g) (g_bm g) (g_bs g) (g_bms g) = clock_seconds k1 /\
@@ -225,7 +271,14 @@ Theorem exact_time_grammar k1 k2 ws1 ws2 tail : wf_clock k1 = true -> wf_clock k
     Qeq (clock_seconds k1) (Qmake (total_ms k1) 1000) /\ Qeq (clock_seconds k2) (Qmake (total_ms k2) 1000).
 Proof.
   intros W1 W2 N1 S1 N2 S2. rewrite !print_clock_text.
-  eexists. split; [apply (search_tc_spec _ _ _ _ ws1 ws2 _ _ _ _ tail); auto using clock_digits_print|].
-  cbn [g_bh g_bm g_bs g_bms g_eh g_em g_es g_ems]. rewrite !clock_value by auto.
+  eexists. split; [apply (search_tc_spec _ _ _ _ ws1 ws2 _ _ _ _ tail); auto using clock_digits_shape|].
+  cbn [g_bh g_bm g_bs g_bms g_eh g_em g_es g_ems]. rewrite !clock_value_shape by auto.
   repeat split; unfold clock_seconds; apply Qred_correct.
 Qed.
+(* non-vacuity and reach: hour fields of two, four and twelve digits *)
+Lemma clock_shape_examples :
+  clock_shape (mkClock 7 2 0 0 0) = true /\ clock_shape (mkClock 1000 4 0 0 0) = true /\
+  clock_shape (mkClock 123456789012 12 59 59 999) = true /\
+  print_clock (mkClock 1000 4 0 0 0) = [49;48;48;48;58;48;48;58;48;48;44;48;48;48] /\
+  clock_seconds (mkClock 1000 4 0 0 1) = Qmake 3600000001 1000.
+Proof. vm_compute. repeat split. Qed.
